@@ -28,7 +28,8 @@ type Script struct {
 type SigSpec struct {
 	Mode string `json:"m,omitempty"` // "" / "die" | "ignore" (only SIGKILL kills) | "eperm" (Stop reports EPERM, the command ends ms later)
 	Ms   int    `json:"ms,omitempty"`
-	Code *int   `json:"c,omitempty"` // exit code when killed by the signal (default -1)
+	Code *int   `json:"c,omitempty"`  // exit code when killed by the signal (default -1)
+	Step int    `json:"st,omitempty"` // extra ms per replica number (PC_REPLICA_NUM of the launch environment)
 }
 
 // Chunk is a run of output lines.
@@ -463,6 +464,15 @@ func (p *Proc) Stop(sig int, parentOnly bool) error {
 			mode = sg.Mode
 		}
 		ms = sg.Ms
+		if sg.Step != 0 {
+			for _, kv := range p.env {
+				if strings.HasPrefix(kv, "PC_REPLICA_NUM=") {
+					var k int
+					fmt.Sscanf(kv[len("PC_REPLICA_NUM="):], "%d", &k)
+					ms += sg.Step * k
+				}
+			}
+		}
 		if sg.Code != nil {
 			code = *sg.Code
 		}
